@@ -453,7 +453,8 @@ def mtime_zones(ctx):
     for z, back in zones.items():
         x = int(back.timestamp())
         spring = {"America/New_York": dt.datetime(2021, 3, 14, 7, 0, tzinfo=utc), "Europe/London": dt.datetime(2021, 3, 28, 1, 0, tzinfo=utc)}.get(z)
-        instants = sorted({x + k * 600 for k in range(-9, 10)} | {x - 1, x + 1, x - 3601, x + 3599} | ({int(spring.timestamp()) + k * 900 for k in range(-3, 4)} if spring else set()))
+        instants = sorted({x + k * 600 for k in range(-9, 10)} | {x - 1, x + 1, x - 3601, x + 3599} | ({int(spring.timestamp()) + k * 900 for k in range(-3, 4)} if spring else set())
+                          | {0, 1, -3600, 86400, 2 ** 31 + 5}) + [0.5, 1.25]    # the epoch itself (a zeroed / restored timestamp), just around it, past 2038
         env = core.repo_env()
         env["TZ"] = z
         p = subprocess.run([core.PY, "-c", MTIME_CHILD], input=json.dumps({"instants": instants}), env=env, stdout=subprocess.PIPE, stderr=subprocess.PIPE, text=True, timeout=300)
@@ -471,6 +472,27 @@ def mtime_zones(ctx):
                         "nothing" if b["got"] is None else dt.datetime.fromtimestamp(b["denotes"], utc).isoformat(),
                         " (inside the repeated hour the naive local time must carry fold=%s)" % b.get("want_fold") if b.get("want_fold") else ""),
                      {"zone": z, "tzname": rep["tzname"], **b})
+
+
+def size_limited_writes(ctx):
+    """read after write under a file-size limit / full disk (RLIMIT_FSIZE in a helper process, shared with C11): a write that RETURNS
+    must have stored the whole value - whether the OS error arrives in the middle of the body or only when the buffered tail is flushed
+    at close."""
+    import subprocess
+    import c11
+    p = subprocess.run([core.PY, "-c", c11.FSIZE_CHILD], env=core.repo_env(), stdout=subprocess.PIPE, stderr=subprocess.PIPE, text=True, timeout=120)
+    ctx.case(("c12-file-size-limit",))
+    if p.returncode != 0:
+        ctx.broke("C12 file-size-limit helper failed", p.stderr[-1500:])
+        return
+    rep = json.loads(p.stdout)
+    if not rep["uberjob"].startswith(core.REPO_SRC):
+        ctx.broke("C12 helper imported uberjob from the wrong place", rep["uberjob"])
+    for r in rep["out"]:
+        ctx.case(("c12-file-size-limit", r["case"], r["path"], r["limit"]))
+        if r["outcome"] == "returned" and r["readback"] not in (None, "equal"):
+            ctx.fail("size-limit-readback", "%s (%s path) under a file-size limit of %d bytes: write() returned normally, and read() afterwards %s"
+                     % (r["case"], r["path"], r["limit"], "returns " + r["readback"] if not r["readback"].startswith("raises") else r["readback"]), r)
 
 
 def mounted_histories(ctx):
@@ -552,6 +574,7 @@ def run(ctx):
     core.use_repo()
     mounted_histories(ctx)
     mtime_zones(ctx)
+    size_limited_writes(ctx)
     extra_scenarios(ctx)
     import uberjob.stores as st
     from uberjob.stores._mounted_store import MountedStore
